@@ -9,6 +9,7 @@ consumes, request closes, queue close) from ANY freshly constructed queue
 Invariant and preservation lemmas: RqModel/Lemmas/Queue.lean.
 -/
 import RqModel.Lemmas.Queue
+import RqModel.Lemmas.QueueDrain
 import RqModel.Lemmas.LockFacts
 namespace C24
 open RqModel.Queue
@@ -171,6 +172,65 @@ theorem flush_closed_only_by_its_batch (s : S) (h : Reachable s) :
 theorem request_flushes (s : S) (h : Reachable s) :
     ∀ r ∈ s.emitted, r.flushes = r.members.filterMap (·.flush) :=
   fun r hr => (emitted_wf h r hr).flushes
+
+/-! ### lossless: everything written does come out (progress in safety form)
+
+`drain` runs the loop and the consumer (consume, send, receive, timer fire; no
+new writes) until none of them is enabled; every such step lowers the measure
+`mu`, so `mu s` steps suffice. -/
+
+theorem inflight_nil_of_settled (s : S) (h : Settled s) (hq : s.qObjs = []) : inflight s = [] := by
+  simp [inflight, h.sendCh, h.sending, h.batchCh, hq, optL, writesOf]
+
+/-- **With a timeout, everything written is emitted.** From any reachable state of a
+running queue whose timeout is non-zero, letting the loop, its timer and the
+consumer run brings out every accepted write: afterwards nothing is in flight and
+the emitted batches concatenate to exactly all written elements in write order. -/
+theorem timer_drains_everything (s : S) (h : Reachable s) (hns : s.stopped = false) (ht : s.timeout ≠ 0) :
+    Reachable (drain (mu s) s) ∧ (drain (mu s) s).written = s.written ∧
+    inflight (drain (mu s) s) = [] ∧
+    (drain (mu s) s).emitted.flatMap (·.objs) = s.written.flatMap (·.objs) := by
+  obtain ⟨hr, he, hs, _⟩ := drain_spec (mu s) s h hns (Nat.le_refl _)
+  simp only [env, Prod.mk.injEq] at he
+  have hq : (drain (mu s) s).qObjs = [] := by
+    by_cases hq : (drain (mu s) s).qObjs = []
+    · exact hq
+    · have := hr.armed (by rw [he.1]; exact hns) (by rw [he.2.1]; exact ht) hq
+      rw [hs.timer] at this; cases this
+  have hi := inflight_nil_of_settled _ hs hq
+  refine ⟨hr, he.2.2, hi, ?_⟩
+  rw [← he.2.2]
+  exact (emitted_is_prefix_of_written _ hr).2 hi
+
+/-- **A Flush brings out everything, timer or not.** From any reachable state of a
+running queue: once the loop and consumer have caught up, a `Flush` is accepted,
+and after they catch up again nothing is in flight — the emitted batches are
+exactly all written elements in write order. -/
+theorem flush_drains_everything (s : S) (h : Reachable s) (hns : s.stopped = false) :
+    ∃ s2, flush (drain (mu s) s) = some s2 ∧
+      Reachable (drain (mu s2) s2) ∧ (drain (mu s2) s2).written = s.written ∧
+      inflight (drain (mu s2) s2) = [] ∧
+      (drain (mu s2) s2).emitted.flatMap (·.objs) = s.written.flatMap (·.objs) := by
+  obtain ⟨hr1, he1, hs1, _⟩ := drain_spec (mu s) s h hns (Nat.le_refl _)
+  simp only [env, Prod.mk.injEq] at he1
+  have hns1 : (drain (mu s) s).stopped = false := by rw [he1.1]; exact hns
+  obtain ⟨s2, hf, hr2, he2, hm2⟩ := flush_settled _ hr1 hns1 hs1
+  simp only [env, Prod.mk.injEq] at he2
+  have hns2 : s2.stopped = false := by rw [he2.1]; exact hns1
+  obtain ⟨hr3, he3, hs3, hm3⟩ := drain_spec (mu s2) s2 hr2 hns2 (Nat.le_refl _)
+  simp only [env, Prod.mk.injEq] at he3
+  have hq : (drain (mu s2) s2).qObjs = [] := by
+    rcases hm3 hm2 with ⟨pre, hp⟩ | ⟨hq, _⟩
+    · rw [hs3.batchCh] at hp; simp at hp
+    · exact hq
+  have hi := inflight_nil_of_settled _ hs3 hq
+  have hw : (drain (mu s2) s2).written = s.written := by rw [he3.2.2, he2.2.2, he1.2.2]
+  refine ⟨s2, hf, hr3, hw, hi, ?_⟩
+  rw [← hw]
+  exact (emitted_is_prefix_of_written _ hr3).2 hi
+
+example : (drain 50 (run (mk 4 3 5) [.write [1] none, .write [2, 3] none])).emitted.map (·.objs) = [[1, 2, 3]] := by
+  decide
 
 /-! ### regenerated facts -/
 
